@@ -370,9 +370,9 @@ def plan(case):
             body_t = files.get(t, b"")
             if b"\r" in body_t and b"\r\n" not in body_t:
                 # lone CR line ends: `contains_reuse_info` is asked before the line ends are folded and reads the whole file as
-                # one line (lint folds them first); the property texts say nothing about --skip-existing: either outcome is accepted
-                why = header_fails(case, files, t)
-                out.append((n, t, "fail" if why else "either", why or "already has REUSE information, CR line ends"))
+                # one line (lint folds them first), so whether the file counts as "existing" depends on what follows the header;
+                # the property texts say nothing about --skip-existing: no claim is made about this file
+                out.append((n, t, "any", "already has REUSE information, CR line ends"))
                 continue
             out.append((n, t, "skip", "already has REUSE information"))
             continue
@@ -752,8 +752,8 @@ class AnnotateE2EStream(Stream):
             s1 = meta_snapshot(root)
             reading = None
             pl = plan(case)
-            if exc is None and isinstance(pl, list) and any(s in ("ok", "either") for _, _, s, _ in pl):
-                reading = G.lint_reading(root, [n for n, _, s, _ in pl if s in ("ok", "either")])
+            if exc is None and isinstance(pl, list) and any(s == "ok" for _, _, s, _ in pl):
+                reading = G.lint_reading(root, [n for n, _, s, _ in pl if s == "ok"])
         self.side[json.dumps(case, sort_keys=True)] = (s0, s1, reading, binary)
         if exc is not None:
             return "EXC:%s:%s" % (type(exc).__name__, str(exc)[:100])
@@ -830,11 +830,12 @@ class AnnotateE2EStream(Stream):
             steps.append((dec(pp), dec(t) if t else None, st))
         # (1) the model's reading of the invocation against the generator's ground truth: which paths are written, how many fail / are skipped
         want_w = sorted(t for _, t, s, _ in truth if s == "ok")
-        either = sorted(t for _, t, s, _ in truth if s == "either")
-        got_w = sorted(t for _, t, st in steps if st == "W")
-        if sorted(set(got_w) - set(either)) != want_w:
+        anys = {t for _, t, s, _ in truth if s == "any"}
+        got_w = sorted(t for _, t, st in steps if st == "W" and t not in anys)
+        if got_w != want_w:
             return False
-        if sum(1 for _, _, st in steps if st == "F") != sum(1 for _, _, s, _ in truth if s == "fail"):
+        nf, tf = sum(1 for _, _, st in steps if st == "F"), sum(1 for _, _, s, _ in truth if s == "fail")
+        if not (tf <= nf <= tf + len(anys)):
             return False
         # (2) theorem-hypothesis tie: where the hypotheses of C11_e2e_failed_unchanged / C11_e2e_each_alone / C11_e2e_exit hold
         #     (Separate, WfPath, no link at a written position) the implementation must show their conclusions
@@ -879,8 +880,8 @@ class AnnotateE2EStream(Stream):
         for n, t, status, why in pl:
             pair = {n, n + ".license"} | ({t} if t else set())
             accounted |= pair
-            if status == "either":
-                status = "skip" if (s0.get(t) or ())[:2] == (s1.get(t) or ())[:2] else "ok"
+            if status == "any":
+                continue
             if status in ("fail", "skip", "drop"):
                 for p in sorted(pair):
                     same = s0.get(p) == s1.get(p) if status == "fail" else (s0.get(p) or ())[:2] == (s1.get(p) or ())[:2]
@@ -935,7 +936,7 @@ class AnnotateE2EStream(Stream):
         if stray:
             return "stray-change: paths outside the files of the invocation and their siblings changed: %s" % sorted(stray)
         want_code = 1 if failed else 0
-        if code != want_code:
+        if code != want_code and not (code == 1 and any(s == "any" for _, _, s, _ in pl)):
             return "exit-status: %d, expected %d (failing files: %s)" % (code, want_code, failed)
         return None
 
@@ -947,7 +948,7 @@ class AnnotateE2EStream(Stream):
         o = case["opts"]
         if isinstance(pl, tuple):
             return ("usage", pl[1].split(":")[0][:40])
-        st = "".join(sorted({"ok": "o", "fail": "F", "skip": "s", "drop": "d", "either": "e"}[s] for _, _, s, _ in pl))
+        st = "".join(sorted({"ok": "o", "fail": "F", "skip": "s", "drop": "d", "any": "a"}[s] for _, _, s, _ in pl))
         dot = [k for k in ("force", "fallback", "skip") if o.get(k)]
         return (st, tuple(dot), o.get("tmpl"), o.get("style"), bool(o.get("multi")), bool(o.get("single")), bool(o.get("recursive")),
                 bool(o.get("skip_existing")), bool(o.get("no_replace")), bool(o.get("merge")))
